@@ -40,10 +40,15 @@ func CopyHeaders(proxyReq, originalReq *http.Request) {
 	if proxyReq.Header == nil {
 		proxyReq.Header = make(http.Header, len(originalReq.Header))
 	}
+	// headers the client lists in its Connection header are hop-by-hop as well (RFC 7230 section 6.1)
+	nominated := connectionNominatedHeaders(originalReq.Header)
 	for header, values := range originalReq.Header {
 		// Skip hop-by-hop headers as per RFC 2616 section 13.5.1
 		// these headers are connection-specific and shouldn't be forwarded
 		if isHopByHopHeader(header) {
+			continue
+		}
+		if _, listed := nominated[http.CanonicalHeaderKey(header)]; listed {
 			continue
 		}
 
@@ -132,6 +137,23 @@ func hasHeaderValue(h http.Header, name string) bool {
 		}
 	}
 	return false
+}
+
+// connectionNominatedHeaders returns the header names a client declared hop-by-hop by listing
+// them in its Connection header ("Connection: close, X-Foo").
+func connectionNominatedHeaders(h http.Header) map[string]struct{} {
+	var nominated map[string]struct{}
+	for _, line := range h.Values(constants.HeaderConnection) {
+		for _, token := range strings.Split(line, ",") {
+			if token = strings.TrimSpace(token); token != "" {
+				if nominated == nil {
+					nominated = make(map[string]struct{})
+				}
+				nominated[http.CanonicalHeaderKey(token)] = struct{}{}
+			}
+		}
+	}
+	return nominated
 }
 
 var hopByHopHeaders = []string{
